@@ -12,8 +12,14 @@ A_POLY = 'results are linear in each operand\'s coefficient vector, so unit vect
 CHECKS = {}
 NOT_APPLICABLE = {}
 ENGINES = [
-    dict(name='E1 input enumerator', path='engine/ checks/', serves_properties=['C01','C02','C04','C06','C07','C08','C11','C12','C13','C15','C16','C17'],
-         kind_free_text='nested exhaustive enumeration of grids, windows, orders, coefficient patterns, scalars and probes; every case runs the real headers; exact reference model over GMP rationals'),
+    dict(name='E1 input enumerator', path='engine/ checks/', serves_properties=['C01', 'C02', 'C03', 'C04', 'C06', 'C07', 'C08', 'C11', 'C12', 'C13', 'C15', 'C16', 'C17', 'C20', 'C09', 'C19'],
+         kind_free_text='nested exhaustive enumeration of grids, windows, orders, coefficient patterns, scalars and probes; every case runs the real headers; exact reference model over GMP rationals (engine/refpp.h); deterministic case numbering, 16-way sharding, replay by case number'),
+    dict(name='E2 program enumerator', path='gen/gen_exprs.py checks/c05_runtime.h', serves_properties=['C05', 'C09', 'C19'],
+         kind_free_text='generates every operator-expression tree up to a node bound as C++ (one template instantiation each) together with its reference AST; trees sharded over translation units'),
+    dict(name='E3 object-pool BFS', path='checks/c10_pool.cpp (and the history search in checks/c03_arith.cpp)', serves_properties=['C10', 'C14', 'C03', 'C09'],
+         kind_free_text='explicit-state breadth-first search over histories of public operations on a pool of live objects; states are re-created by replaying the shortest history on fresh real objects; canonical key = shapes + copy-provenance partition (C03: exact values); level-synchronous, 16 threads; fixpoint or depth bound'),
+    dict(name='E4 schedule explorer', path='sched/', serves_properties=['C18'],
+         kind_free_text='stateless model checker for the implementation: compiler instrumentation (-fsanitize=thread) linked against an own runtime (scheduler at every synchronisation operation, vector-clock happens-before race detector, allocation shadow), iterative preemption bounding + state-cached DFS, every execution in a child forked from a pristine zygote'),
 ]
 
 CHECKS['C13'] = dict(
@@ -257,7 +263,7 @@ CHECKS['C10'] = dict(
     level_note='The model IS the implementation: a state is represented by the shortest history reaching it and re-created by replaying that history on fresh real objects, so every explored trace is an implementation execution (traces_validated_against_impl = transitions). The key drops coefficient values (no mutator in the alphabet branches on them, A-shape); the provenance partition keeps copies distinguishable from independently built equals. Bounds: pool of 4 slots, G with 3 (thorough 4) points, H with 2 (3).',
     units=pool_units('C10'),
     rule='each evaluation is one transition (history + next operation) executed on real objects; all are distinct by construction (distinct (state, operation) pairs).',
-    bounds=dict(quick='G 3 points, H 2 points; pools (1,1,0) and (1,1,2); every history up to depth 5 (state-deduplicated); with and without library self-checks', thorough='same pools to FIXPOINT (about 2.8e5 states, depth 23, each), plus G 4 points / H 3 points up to depth 6'),
+    bounds=dict(quick='G 3 points, H 2 points; pools (1,1,0) and (1,1,2); every history up to depth 5 (state-deduplicated); with and without library self-checks', thorough='same pools to FIXPOINT (about 2.8e5 states, depth 23, each), plus G 4 points / H 3 points (with partially overlapping seed windows) up to depth 7'),
     guards=dict(classes=POOL_GUARD_OPS, counters=['states', 'transitions']),
     mc_note='states = distinct canonical pool states over both searches and both build configurations; transitions = operations executed (each on a freshly replayed pool).',
     assumptions=[A_SHAPE, 'aliasing between objects can only arise through copy/move operations, which the provenance partition tracks'],
@@ -403,6 +409,10 @@ def c19_units(tier):
     th = tier == 'thorough'
     F = ['-DVF_STRICT']
     us = [unit('instantiate', 'checks/c19_instantiate.cpp', 'exact', shards=1, kind='compile_is_verdict')]
+    if th:   # a second front end finds different two-phase-lookup and conversion problems
+        us.append(unit('instantiate-clang', 'checks/c19_instantiate.cpp', 'exact', shards=1, cxx='clang++', kind='compile_is_verdict'))
+        us.append(unit('c03-strict-clang', 'checks/c03_arith.cpp', 'exact', cxx='clang++', flags=F, kind='compile_is_verdict'))
+        us.append(unit('c07-strict-clang', 'checks/c07_linear.cpp', 'exact', cxx='clang++', flags=F, kind='compile_is_verdict'))
     for name, src in [('c01', 'checks/c01_generator.cpp'), ('c02', 'checks/c02_eval.cpp'), ('c03', 'checks/c03_arith.cpp'), ('c04', 'checks/c04_primitive.cpp'),
                       ('c06', 'checks/c06_bilinear.cpp'), ('c07', 'checks/c07_linear.cpp'), ('c08', 'checks/c08_grids.cpp'), ('c11', 'checks/c11_validation.cpp'),
                       ('c12', 'checks/c12_interp.cpp'), ('c13', 'checks/c13_support.cpp'), ('c15', 'checks/c15_predicates.cpp')]:
@@ -490,10 +500,10 @@ CHECKS['C18'] = dict(
     level_text='Programs: all 144 ordered pairs of 12 operations (evaluate; copy+destroy of spline, support and grid; a+b, a*b, a-b, predicates; operator application incl. spline factor; bilinear/linear forms; generateBSplines; isZero with its function-local static; destruction of thread-owned copies sharing the grid; support algebra; combination with a spline on an equal grid held in a distinct object; X<2>, X<4>, Dx<2>; linearCombination, integrate<3>, product with an interval-free spline) on shared const objects, further pairs with a class-type scalar (guarded static initialisation), 3-thread and 2x2-operation programs (thorough: all 364 unordered triples and all 2x2-operation programs over the five operations that copy, destroy or lazily initialise). For each program every schedule with at most 2 preemptions is covered (bounds 0, 1, 2 run to completion); the unbounded state-cached search is then run under an execution cap and completes for the smaller programs (counters say for how many). With synchronisation confined to read-modify-write chains on reference counts, one preemption already places any two code segments of two threads concurrently, so every potential race between segments is examined within the bound. On every execution: no pair of conflicting accesses unordered by happens-before, no use after free / double free, schedule-independent set of live blocks, no deadlock, per-operation result digests identical to the operation run alone.',
     level_note='The harness TU is the real library code compiled with -fsanitize=thread; libstdc++ header code is instrumented too, libstdc++.so/libc internals are not (operator new/delete, memcpy/memmove/memset and the guard functions are interposed). Scheduler hand-offs are not happens-before edges. Sequentially consistent interleavings only; under _GLIBCXX_TSAN libstdc++ disables its double-word fast path in shared_ptr release, so that path is not covered. 2-3 threads, 1-2 operations each. A free-running pass of the same bodies under the real ThreadSanitizer runtime (unit tsan-free: all operation pairs, both scalar variants, repeated; thorough: all triples) is a secondary detector for code the instrumentation cannot see; it is not the deciding step.',
     units=c18_units,
-    deadline=dict(quick=600, thorough=2700),
+    deadline=dict(quick=600, thorough=4200),
     rule='each evaluation is one complete (or state-cache-pruned) execution of a program under one schedule in a forked child; distinct_nontrivial = distinct orders in which the threads performed their synchronisation operations, summed over programs. counters: programs, executions, states, transitions, atomic/guard/plain access counts observed by the runtime.',
     bounds=dict(quick='197 programs: 144 pairs + 25 class-scalar pairs + 18 triples + 10 2x2 programs; every schedule with <= 2 preemptions; unbounded search granted 6000 further executions per program',
-                thorough='all pairs, all 364 unordered triples, 576 2x2-operation programs; every schedule with <= 2 preemptions; unbounded search granted 20000 further executions per program'),
+                thorough='all pairs, all 364 unordered triples, 576 2x2-operation programs; every schedule with <= 2 preemptions; unbounded search granted 8000 further executions per program'),
     guards=dict(func=c18_guard, counters=['programs', 'executions', 'states', 'transitions'], classes=['threads:2:ops:1:variant0', 'threads:3:ops:1:variant0', 'threads:2:ops:2:variant0', 'threads:2:ops:1:variant1']),
     mc_note='states = distinct abstract states at scheduling points (per-thread progress, values observed, vector clocks, contents and clocks of all synchronisation words); transitions = scheduling points executed beyond replayed prefixes; every trace is an execution of the implementation.',
     assumptions=['data-race freedom makes interleavings at synchronisation points sufficient; any data race is itself reported', 'sequential consistency'],
